@@ -1,0 +1,180 @@
+//go:build verif
+
+package fzf
+
+import (
+	"reflect"
+	"sort"
+
+	"github.com/junegunn/fzf/src/algo"
+	"github.com/junegunn/fzf/src/tui"
+)
+
+// Verification hooks (build tag verif) for option and --bind parsing: thin
+// exported views of unexported values. No logic beyond copying fields.
+
+// VerifAct is one parsed action: the stringer name of its type and its argument.
+type VerifAct struct {
+	Type string
+	Arg  string
+}
+
+// VerifBinding is one key of a keymap with its action list.
+type VerifBinding struct {
+	EventType int
+	Char      rune
+	Actions   []VerifAct
+}
+
+func verifActs(as []*action) []VerifAct {
+	out := make([]VerifAct, len(as))
+	for i, a := range as {
+		out[i] = VerifAct{a.t.String(), a.a}
+	}
+	return out
+}
+
+func verifKeymap(km map[tui.Event][]*action) []VerifBinding {
+	out := make([]VerifBinding, 0, len(km))
+	for k, as := range km {
+		out = append(out, VerifBinding{int(k.Type), k.Char, verifActs(as)})
+	}
+	sort.Slice(out, func(i, j int) bool {
+		if out[i].EventType != out[j].EventType {
+			return out[i].EventType < out[j].EventType
+		}
+		return out[i].Char < out[j].Char
+	})
+	return out
+}
+
+// VerifParseKeymap runs parseKeymap on an empty keymap.
+func VerifParseKeymap(str string) ([]VerifBinding, error) {
+	km := make(map[tui.Event][]*action)
+	err := parseKeymap(km, str)
+	return verifKeymap(km), err
+}
+
+// VerifParseKeymaps runs parseKeymap for each string in turn on one keymap (as repeated --bind does).
+func VerifParseKeymaps(strs []string) ([]VerifBinding, error) {
+	km := make(map[tui.Event][]*action)
+	for _, s := range strs {
+		if err := parseKeymap(km, s); err != nil {
+			return verifKeymap(km), err
+		}
+	}
+	return verifKeymap(km), nil
+}
+
+// VerifParseSingleActionList runs parseSingleActionList.
+func VerifParseSingleActionList(str string) ([]VerifAct, error) {
+	as, err := parseSingleActionList(str)
+	if err != nil {
+		return nil, err
+	}
+	return verifActs(as), nil
+}
+
+// VerifMaskActionContents runs maskActionContents.
+func VerifMaskActionContents(str string) string { return maskActionContents(str) }
+
+// VerifParseKeyChords runs parseKeyChords and returns the events (sorted).
+func VerifParseKeyChords(str string) ([]VerifBinding, error) {
+	chords, err := parseKeyChords(str, "key names required")
+	if err != nil {
+		return nil, err
+	}
+	km := make(map[tui.Event][]*action)
+	for k := range chords {
+		km[k] = nil
+	}
+	return verifKeymap(km), nil
+}
+
+// VerifOptionsView exposes the unexported parts of Options.
+type VerifOptionsView struct {
+	Algo          string // "v1" | "v2" | "?"
+	Criteria      []int
+	CriteriaNames []string
+	Nth           [][2]int
+	WithNthSet    bool
+	AcceptNthSet  bool
+	DelimiterStr  *string
+	DelimiterRx   *string
+	Track         int
+	Layout        int
+	HeightSize    float64
+	HeightPercent bool
+	HeightAuto    bool
+	HeightInverse bool
+	HistoryPath   *string
+	HistoryMax    int
+	ListenHost    *string
+	ListenPort    int
+	WalkerFile    bool
+	WalkerDir     bool
+	WalkerHidden  bool
+	WalkerFollow  bool
+	Expect        []VerifBinding
+	Keymap        []VerifBinding
+	PreviewCmd    string
+	InfoStyle     int
+}
+
+func VerifViewOptions(opts *Options) VerifOptionsView {
+	v := VerifOptionsView{Algo: "?"}
+	p := reflect.ValueOf(opts.FuzzyAlgo).Pointer()
+	if p == reflect.ValueOf(algo.Algo(algo.FuzzyMatchV1)).Pointer() {
+		v.Algo = "v1"
+	} else if p == reflect.ValueOf(algo.Algo(algo.FuzzyMatchV2)).Pointer() {
+		v.Algo = "v2"
+	}
+	names := map[criterion]string{byScore: "score", byChunk: "chunk", byLength: "length", byBegin: "begin", byEnd: "end", byPathname: "pathname"}
+	for _, c := range opts.Criteria {
+		v.Criteria = append(v.Criteria, int(c))
+		v.CriteriaNames = append(v.CriteriaNames, names[c])
+	}
+	for _, r := range opts.Nth {
+		v.Nth = append(v.Nth, [2]int{r.begin, r.end})
+	}
+	v.WithNthSet = opts.WithNth != nil
+	v.AcceptNthSet = opts.AcceptNth != nil
+	v.DelimiterStr = opts.Delimiter.str
+	if opts.Delimiter.regex != nil {
+		s := opts.Delimiter.regex.String()
+		v.DelimiterRx = &s
+	}
+	v.Track = int(opts.Track)
+	v.Layout = int(opts.Layout)
+	v.HeightSize, v.HeightPercent, v.HeightAuto, v.HeightInverse = opts.Height.size, opts.Height.percent, opts.Height.auto, opts.Height.inverse
+	if opts.History != nil {
+		s := opts.History.path
+		v.HistoryPath = &s
+		v.HistoryMax = opts.History.maxSize
+	}
+	if opts.ListenAddr != nil {
+		h := opts.ListenAddr.host
+		v.ListenHost = &h
+		v.ListenPort = opts.ListenAddr.port
+	}
+	v.WalkerFile, v.WalkerDir, v.WalkerHidden, v.WalkerFollow = opts.WalkerOpts.file, opts.WalkerOpts.dir, opts.WalkerOpts.hidden, opts.WalkerOpts.follow
+	ex := make(map[tui.Event][]*action)
+	for k := range opts.Expect {
+		ex[k] = nil
+	}
+	v.Expect = verifKeymap(ex)
+	v.Keymap = verifKeymap(opts.Keymap)
+	v.PreviewCmd = opts.Preview.command
+	v.InfoStyle = int(opts.InfoStyle)
+	return v
+}
+
+// VerifParseOptionsLayer runs the unexported per-layer parser on given options (nil = defaults).
+func VerifParseOptionsLayer(opts *Options, args []string) (*Options, error) {
+	if opts == nil {
+		opts = defaultOptions()
+	}
+	index := 0
+	err := parseOptions(&index, opts, args)
+	return opts, err
+}
